@@ -264,6 +264,9 @@ class Peer:
 
     def _reset(self, message: str = '', error: str | Exception = '') -> None:
         self._close(message, error)
+        # the session is gone: a sync mode API command waiting for this peer to flush would wait for ever
+        if self.neighbor.rib:
+            self.neighbor.rib.outgoing.fire_flush_callbacks()
 
         if not self._restart or self.neighbor.ephemeral:
             self.fsm_runner.terminate()
